@@ -29,6 +29,8 @@ mod mutate;
 mod big;
 #[path = "c07/seq.rs"]
 mod seq;
+#[path = "c07/lookalike.rs"]
+mod lookalike;
 use common::*;
 use seq::{Call, GenParams, Runner, Summ};
 
@@ -338,6 +340,11 @@ fn corpus() -> Vec<Case> {
     add("op", "query { a(s: \"\\u{00000000041}\") }", Some("(doc (op query (noname) () () ((field (noalias) \"a\" (p 0 8) ((arg \"s\" (p 0 10) (str \"A\" (p 0 13)))) () (nosel))) (p 0 0)))"), "long-hex");
     add("op", "query { a(s: \"\\uD83D\\uDE00\") }", None, "surrogate-pair");
     add("op", "query { a(s: \"\"\"\n  a\n\"\"\") }", Some("(doc (op query (noname) () () ((field (noalias) \"a\" (p 0 8) ((arg \"s\" (p 0 10) (str \"a\" (p 0 13)))) () (nosel))) (p 0 0)))"), "block-string");
+    // text that looks like an escape / token of another lexical context (after an escaped backslash, in a comment,
+    // in a block string): it denotes itself
+    add("op", "query { a(s: \"\\\\uDBFF \\\\u{110000} \\\\q\") }", Some("(doc (op query (noname) () () ((field (noalias) \"a\" (p 0 8) ((arg \"s\" (p 0 10) (str \"\\\\uDBFF \\\\u{110000} \\\\q\" (p 0 13)))) () (nosel))) (p 0 0)))"), "lookalike-string");
+    add("op", "query { # \\uDBFF \\u{110000} \\q \"\"\" \"\n a }", Some("(doc (op query (noname) () () ((field (noalias) \"a\" (p 1 1) () () (nosel))) (p 0 0)))"), "lookalike-comment");
+    add("ts", "\"\"\"not \\uDBFF, \\u{110000}, \\q or # { $v\"\"\" scalar S", Some("(tsdoc (typedef scalar (desc \"not \\\\uDBFF, \\\\u{110000}, \\\\q or # { $v\") \"S\" (p 0 50) () () () () () () (p 0 43)))"), "lookalike-blockstr");
     // assorted shapes
     for t in ["", " ", "\u{feff}", "#", "# c\n", "query", "query {", "query { }", "{", "}", "query Q { a", "fragment on on T { a }", "fragment F on T { a }",
         "query { ...on }", "query { ... on T { a } }", "query { ...on T { a } }", "query { ...F }", "query { on }", "query { true }", "query { a(x: true1) }",
@@ -717,6 +724,23 @@ fn main() {
     ctx.run(&batch);
     let blocks = block_cases(&mut rng, args.budget(200, 2000));
     ctx.run(&blocks);
+    // ---- look-alikes of other lexical contexts in comments, block strings, normal strings, import paths
+    if !only_new || args.extra.get("lookalike").is_some() {
+        let n_look = if search { 3000 } else { args.budget(500, 6000) };
+        let mut batch: Vec<Case> = vec![];
+        for i in 0..n_look {
+            let lc = lookalike::gen_lookalike(&mut rng, i);
+            if i < 5 {
+                ctx.rep.sample(json!({"kind": lc.kind, "lookalike": lc.place.name(), "text": lc.text.chars().take(400).collect::<String>()}));
+            }
+            batch.push(Case { kind: lc.kind, text: lc.text, expect: Some(lc.expect), label: format!("valid:{}", lc.place.name()), features: lc.features });
+            if batch.len() >= 600 {
+                ctx.run(&batch);
+                batch.clear();
+            }
+        }
+        ctx.run(&batch);
+    }
     let mut run = Runner::new(&args.scratch);
     let t_large = std::time::Instant::now();
     let large = large_stream(&mut ctx, &mut run, &mut rng, &args);
